@@ -1220,8 +1220,37 @@ impl World {
         if hash_str_of(x) != hash_str(mx) || fnv_hash(x) != fnv_hash(mx.as_str()) || word_hash(x) != word_hash(mx.as_str()) {
             bad("C17.hash", format!("hash of {mx:?} differs from the hash of the same str (SipHash, FNV, or a word-at-a-time hasher)"));
         }
-        if format!("{x}") != format!("{mx}") || format!("{x:?}") != format!("{mx:?}") || format!("{x:>20}") != format!("{mx:>20}") {
-            bad("C17.fmt", format!("Display/Debug of {mx:?} differ from str's"));
+        let fx: [String; 12] = [
+            format!("{x}"),
+            format!("{x:?}"),
+            format!("{x:>20}"),
+            format!("{x:<7}|"),
+            format!("{x:^9}|"),
+            format!("{x:*^31}"),
+            format!("{x:.3}"),
+            format!("{x:10.2}|"),
+            format!("{x:#?}"),
+            format!("{x:>12?}"),
+            format!("{:w$.p$}", x, w = my.len() % 23, p = mx.len() % 5),
+            format!("{x:-<18.17}"),
+        ];
+        let ms = mx.as_str();
+        let fs: [String; 12] = [
+            format!("{ms}"),
+            format!("{ms:?}"),
+            format!("{ms:>20}"),
+            format!("{ms:<7}|"),
+            format!("{ms:^9}|"),
+            format!("{ms:*^31}"),
+            format!("{ms:.3}"),
+            format!("{ms:10.2}|"),
+            format!("{ms:#?}"),
+            format!("{ms:>12?}"),
+            format!("{:w$.p$}", ms, w = my.len() % 23, p = mx.len() % 5),
+            format!("{ms:-<18.17}"),
+        ];
+        if let Some(i) = (0..12).find(|i| fx[*i] != fs[*i]) {
+            bad("C17.fmt", format!("Display/Debug of {mx:?} differ from str's (format #{i}: {:?} vs {:?})", fx[i], fs[i]));
         }
         let sy: &str = my.as_str();
         let cow: Cow<str> = Cow::Borrowed(sy);
